@@ -35,6 +35,7 @@ import (
 	"sort"
 	"strconv"
 	"strings"
+	"time"
 
 	"github.com/oasisprotocol/oasis-core/go/common/cbor"
 	"github.com/oasisprotocol/oasis-core/go/common/crypto/signature"
@@ -81,6 +82,7 @@ type genTx struct {
 	Raw    []byte
 	Kind   string
 	NoExec bool // must never take effect whatever the state (forged / foreign-domain / altered)
+	Orig   []byte // the unaltered byte string an altered one was derived from
 }
 
 type plan struct {
@@ -488,9 +490,9 @@ func buildPlan(seed uint64, nblocks, ntx int, g *muxdrv.Genesis, p *plan) {
 			case k < 72: // altered: one bit, then (sometimes) the original
 				orig := muxdrv.Sign(s.key, muxdrv.TxTransfer(refNonce(s), okFee(), signers[r.Intn(6)].addr, 100))
 				bit := r.Intn(8 * len(orig))
-				add = []genTx{{Raw: muxdrv.FlipBit(orig, bit), Kind: "bitflip", NoExec: true}}
+				add = []genTx{{Raw: muxdrv.FlipBit(orig, bit), Kind: "bitflip", NoExec: true, Orig: orig}}
 				if r.Chance(40) {
-					add = append(add, genTx{Raw: muxdrv.FlipBit(orig, r.Intn(8*len(orig))), Kind: "bitflip", NoExec: true})
+					add = append(add, genTx{Raw: muxdrv.FlipBit(orig, r.Intn(8*len(orig))), Kind: "bitflip", NoExec: true, Orig: orig})
 				}
 				if r.Chance(50) {
 					add = append(add, genTx{Raw: orig, Kind: "fresh"})
@@ -509,9 +511,9 @@ func buildPlan(seed uint64, nblocks, ntx int, g *muxdrv.Genesis, p *plan) {
 			case k < 93:
 				raw := muxdrv.Sign(s.key, freshTx(s, refNonce(s)))
 				if r.Chance(50) {
-					add = []genTx{{Raw: muxdrv.Truncate(raw, r.Range(1, len(raw)-1)), Kind: "truncated", NoExec: true}}
+					add = []genTx{{Raw: muxdrv.Truncate(raw, r.Range(1, len(raw)-1)), Kind: "truncated", NoExec: true, Orig: raw}}
 				} else {
-					add = []genTx{{Raw: append(append([]byte{}, raw...), r.Bytes(r.Range(1, 3))...), Kind: "extended", NoExec: true}}
+					add = []genTx{{Raw: append(append([]byte{}, raw...), r.Bytes(r.Range(1, 3))...), Kind: "extended", NoExec: true, Orig: raw}}
 				}
 			case k < 95:
 				m := []transaction.MethodName{"", "foo.Bar", "staking.Nope"}[r.Intn(3)]
@@ -563,6 +565,24 @@ type blockOut struct {
 type runOut struct {
 	blocks     []blockOut
 	violations []map[string]any
+	findings   []map[string]any // same shape plus "key"
+}
+
+// KeyMalleable: an altered byte string decodes to the SAME (blob, public key,
+// signature) as the original and takes effect in its place.
+const KeyMalleable = "C09:altered-envelope-bytes-same-signed-content-executes"
+
+// envelopeID identifies the decoded envelope of a byte string ("" if it does not decode).
+func envelopeID(raw []byte) string {
+	var st transaction.SignedTransaction
+	if err := cbor.Unmarshal(raw, &st); err != nil {
+		return ""
+	}
+	h := sha512.New512_256()
+	h.Write(st.Signature.PublicKey[:])
+	h.Write(st.Signature.Signature[:])
+	h.Write(st.Blob)
+	return hex.EncodeToString(h.Sum(nil))
 }
 
 func dropped(d [][2]int, b, i int) bool {
@@ -608,6 +628,7 @@ func runHistory(seed uint64, nblocks, ntx, upto int, drop [][2]int) (out *runOut
 	rf := newRef(g, p)
 	chain := g.ChainContext
 	okSeen := map[string]int{}
+	okEnv := map[string]int{}
 	ids := map[string]int{}
 	addrOf := map[string]staking.Address{}
 	for addr := range g.Doc.Staking.Ledger {
@@ -740,10 +761,23 @@ func runHistory(seed uint64, nblocks, ntx, upto int, drop [][2]int) (out *runOut
 			stats = append(stats, "response:"+strconv.Itoa(cl)+" "+r2.TxResults[i].Codespace+"/"+strconv.Itoa(int(r2.TxResults[i].Code))+" "+normLog(r2.TxResults[i].Log))
 			stats = append(stats, "kind:"+gts[i].Kind, "class:"+strconv.Itoa(cl), "kind-class:"+gts[i].Kind+"/"+strconv.Itoa(cl))
 			hx := hex.EncodeToString(raws[i])
-			if cl == 0 {
-				if gts[i].NoExec {
-					viol(b, fmt.Sprintf("tx %d: a %s envelope was executed (code 0)", i, gts[i].Kind), map[string]any{"tx": hx})
+			if gts[i].NoExec && au {
+				// an altered / foreign-domain byte string consumed the nonce (and possibly executed)
+				if id := envelopeID(raws[i]); id != "" && gts[i].Orig != nil && id == envelopeID(gts[i].Orig) {
+					out.findings = append(out.findings, map[string]any{"key": KeyMalleable,
+						"what": fmt.Sprintf("tx %d: a %s byte string (differs from the signed original in the envelope framing only: same blob, public key and signature after decoding) passed authentication and took effect, result class %d", i, gts[i].Kind, cl),
+						"case": Desc{Mode: "deliver", Seed: seed, Blocks: nblocks, Txs: ntx, Block: b, Drop: drop}, "tx": hx, "orig": hex.EncodeToString(gts[i].Orig)})
+				} else {
+					viol(b, fmt.Sprintf("tx %d: a %s byte string passed authentication (class %d)", i, gts[i].Kind, cl), map[string]any{"tx": hx})
 				}
+			}
+			if id := envelopeID(raws[i]); cl == 0 && id != "" {
+				if prev, dup := okEnv[id]; dup {
+					viol(b, fmt.Sprintf("tx %d (%s): the same signed content (blob, key, signature) executed twice (first in block %d)", i, gts[i].Kind, prev), map[string]any{"tx": hx})
+				}
+				okEnv[id] = b
+			}
+			if cl == 0 {
 				if !a.SigValid {
 					viol(b, fmt.Sprintf("tx %d (%s): executed although its signature is not valid under the transaction context of this chain", i, gts[i].Kind), map[string]any{"tx": hx})
 				}
@@ -825,8 +859,23 @@ func runHistory(seed uint64, nblocks, ntx, upto int, drop [][2]int) (out *runOut
 	return out
 }
 
-// shrink greedily drops blocks' transactions while some violation remains.
-func shrink(v map[string]any) map[string]any {
+func pick(o *runOut, key string) map[string]any {
+	if key == "" {
+		if len(o.violations) > 0 {
+			return o.violations[0]
+		}
+		return nil
+	}
+	for _, f := range o.findings {
+		if f["key"] == key {
+			return f
+		}
+	}
+	return nil
+}
+
+// shrink greedily drops transactions while a violation (key "") or a finding with the key remains.
+func shrink(v map[string]any, key string) map[string]any {
 	d, ok := v["case"].(Desc)
 	if !ok {
 		return v
@@ -839,18 +888,39 @@ func shrink(v map[string]any) map[string]any {
 	buildPlan(d.Seed, d.Blocks, d.Txs, g, p)
 	best := v
 	drop := append([][2]int{}, d.Drop...)
-	budget := 60
-	for b := d.Block; b >= 0 && budget > 0; b-- {
-		for i := len(p.blocks[b]) - 1; i >= 0 && budget > 0; i-- {
-			if dropped(drop, b, i) {
-				continue
+	deadline := time.Now().Add(20 * time.Second)
+	try := func(extra [][2]int) bool {
+		if time.Now().After(deadline) {
+			return false
+		}
+		t := append(append([][2]int{}, drop...), extra...)
+		o := runHistory(d.Seed, d.Blocks, d.Txs, d.Block, t)
+		if x := pick(o, key); x != nil {
+			drop = t
+			best = x
+			return true
+		}
+		return false
+	}
+	all := func(b int) [][2]int {
+		var e [][2]int
+		for i := range p.blocks[b] {
+			if !dropped(drop, b, i) {
+				e = append(e, [2]int{b, i})
 			}
-			budget--
-			try := append(append([][2]int{}, drop...), [2]int{b, i})
-			o := runHistory(d.Seed, d.Blocks, d.Txs, d.Block, try)
-			if len(o.violations) > 0 {
-				drop = try
-				best = o.violations[0]
+		}
+		return e
+	}
+	// whole earlier blocks first, then single transactions (the violating block first)
+	for b := d.Block - 1; b >= 0; b-- {
+		if e := all(b); len(e) > 0 {
+			try(e)
+		}
+	}
+	for b := d.Block; b >= 0; b-- {
+		for i := len(p.blocks[b]) - 1; i >= 0; i-- {
+			if !dropped(drop, b, i) {
+				try([][2]int{{b, i}})
 			}
 		}
 	}
@@ -1027,6 +1097,27 @@ func ctxMain(seed uint64, out string, n int, replay *CtxDesc) {
 			use = append(use, ctx)
 		}
 		msg := []byte("verif C09 pairwise message")
+		// concrete non-injectivity: the raw context of one registered context is a proper
+		// prefix of another's, so a signature for (cj, m) is a signature for (ci, rest || m)
+		for i, ci := range use {
+			for j, cj := range use {
+				ri, _ := signature.PrepareSignerContext(ci)
+				rj, _ := signature.PrepareSignerContext(cj)
+				if i == j || !bytes.HasPrefix(rj, ri) {
+					continue
+				}
+				sig, err := k.Signer.ContextSign(cj, msg)
+				if err != nil {
+					panic(err)
+				}
+				other := append(append([]byte{}, rj[len(ri):]...), msg...)
+				if k.Public().Verify(ci, other, sig) {
+					sum.Violations = append(sum.Violations, map[string]any{
+						"what": fmt.Sprintf("domain separation broken: a signature made under context %q for message %q verifies under context %q for message %q (the first context is a prefix of the second and the preimage has no length field)", cj, msg, ci, other),
+						"case": CtxDesc{Mode: "ctx", Index: i, Base: string(ci), Chain: chain}})
+				}
+			}
+		}
 		for i, ci := range use {
 			sig, err := k.Signer.ContextSign(ci, msg)
 			if err != nil {
@@ -1142,6 +1233,7 @@ func main() {
 		upto          int
 		drop          [][2]int
 	}
+	sum.Extra["findings_seen"] = 0
 	var jobs []job
 	if rd != nil {
 		jobs = []job{{rd.Seed, rd.Blocks, rd.Txs, rd.Block, rd.Drop}}
@@ -1168,10 +1260,14 @@ func main() {
 			w.Add(b.coq, map[string]any{"case": b.desc})
 			sum.Sample(b.desc, 3)
 		}
+		sum.Extra["findings_seen"] = sum.Extra["findings_seen"].(int) + len(o.findings)
+		if len(o.findings) > 0 && len(sum.Findings) == 0 {
+			addFinding(sum, o.findings[0], rd == nil)
+		}
 		if len(o.violations) > 0 {
 			v := o.violations[0]
 			if rd == nil {
-				v = shrink(v)
+				v = shrink(v, "")
 			}
 			sum.Violations = append(sum.Violations, v)
 			for _, x := range o.violations[1:] {
@@ -1183,4 +1279,12 @@ func main() {
 	}
 	w.Close()
 	sum.Write(*out)
+}
+
+func addFinding(sum *coqout.Summary, f map[string]any, doShrink bool) {
+	if doShrink {
+		f = shrink(f, f["key"].(string))
+	}
+	sum.Findings = append(sum.Findings, coqout.Finding{Key: f["key"].(string), What: f["what"].(string),
+		Replay: map[string]any{"case": f["case"], "tx": f["tx"], "orig": f["orig"]}})
 }
